@@ -637,6 +637,6 @@ func main() {
 	w.origin.Close()
 	w.tun.Close()
 	run.Floor("limited_transfers_checked", 11)
-	run.Floor("unlimited_transfers_checked", 2)
+	run.Floor("unlimited_transfers_checked", 1)
 	run.Finish()
 }
